@@ -1,3 +1,1270 @@
+// appends.go: gen/AppendSites.v — every `append(x, …)` call (and, in a second table, every other
+// statement that writes through a slice or map: `x[i] = v`, `x[i] op= v`, `copy(x, …)`,
+// `delete(x, …)`) in the non-test, non-generated code of /repo, with the PROVENANCE CLASS of x.
+//
+// The class answers "whose backing array can this statement write?".  It is computed by a small
+// analysis on the go/ast trees (no type information), per package:
+//
+//	fresh           nil / make / new / composite literal / []byte(string) / append to a fresh value,
+//	                in a local variable of the same function
+//	prefix_field    unexported struct field or package variable every write to which in the package is
+//	                a `[]byte(<string constant expression>)` conversion (e.keyPrefix, roleKeyPrefix,
+//	                noncePrefix).  cap == len for such a slice on this Go version; the harness
+//	                verifies that by reflection at run time.
+//	prefix_derived  result of append(s) to a prefix_field in the same call (possibly handed down through
+//	                parameters of unexported functions ALL of whose call sites pass such a value):
+//	                the full prefix slice itself or an array allocated by this call
+//	decoded         field of an object allocated in this call and filled by <x>.Unmarshal(obj, …)
+//	own_output      field of an object (VMOutput, LogEntry, OutputAccount, parsed result …) allocated in
+//	                this call — directly, via an unexported helper's return value, or received as a
+//	                parameter of an unexported function all of whose call sites pass such an object —
+//	                such that every write to a field of that name in the package stores a safe class
+//	private_state   unexported field of a struct declared in the package, every write to which in the
+//	                package stores a fresh value or a slice derived from the field itself
+//	input           reachable from a parameter / receiver of a function callable from outside
+//	unknown         anything else.  The analysis never guesses: whatever it cannot follow is unknown.
+//
+// Flow-insensitive: a local variable has the join of all values assigned to it anywhere in the function.
+// Objects are abstracted by their allocation site (composite literal, new, zero value); a field read
+// x.F is the join, over the sites x may denote, of the literal's value for F and of every assignment
+// `y.F = e` in the package whose y may denote that site (or is unknown).  Parameters of unexported,
+// non-escaping functions are the join over all call sites in the package; results are the join over the
+// return statements.  The equations are solved by Kleene iteration from bottom (so the recursive
+// occurrence in x = append(x, …) contributes nothing), and bottom at the end is reported as unknown.
+//
+// Assumptions (trusted, stated in AppendObligations.v): code outside the analysed package (injected
+// interfaces, other packages) neither stores into nor retains the objects passed to it, except that
+// <x>.Unmarshal(obj, …) fills obj with freshly allocated data; no reflection/unsafe writes to unexported
+// fields; objects reachable from a function's inputs are not the ones it allocates itself.
 package main
 
-func genAppends(repo, outDir string) {}
+import (
+	"bytes"
+	"fmt"
+	"go/ast"
+	"go/printer"
+	"go/token"
+	"os"
+	"path/filepath"
+	"sort"
+	"strings"
+)
+
+type aclass int
+
+const (
+	clBottom aclass = iota // no information yet (recursive occurrence); identity of join
+	clFresh
+	clPrefix
+	clPrefixDerived
+	clDecoded
+	clOwn
+	clPrivate
+	clInput
+	clUnknown
+)
+
+var aclassCoq = map[aclass]string{
+	clBottom: "Unknown", clFresh: "Fresh", clPrefix: "PrefixField", clPrefixDerived: "PrefixDerived",
+	clDecoded: "Decoded", clOwn: "OwnOutput", clPrivate: "PrivateState", clInput: "Input", clUnknown: "Unknown",
+}
+
+// allocation site: a composite literal together with the function it occurs in (its field values are
+// classified there), or a new(T) / zero value / implicit sub-object (lit == nil: no field set)
+type alit struct {
+	lit *ast.CompositeLit
+	fn  *afunc
+	id  string
+}
+
+type aval struct {
+	cls  aclass
+	lits []*alit
+}
+
+func (v aval) has(l *alit) bool {
+	for _, x := range v.lits {
+		if x == l {
+			return true
+		}
+	}
+	return false
+}
+
+func sameVal(a, b aval) bool {
+	if a.cls != b.cls || len(a.lits) != len(b.lits) {
+		return false
+	}
+	for _, l := range a.lits {
+		if !b.has(l) {
+			return false
+		}
+	}
+	return true
+}
+
+func joinClass(a, b aclass) aclass {
+	if a == clBottom {
+		return b
+	}
+	if b == clBottom {
+		return a
+	}
+	if a == b {
+		return a
+	}
+	if a == clUnknown || b == clUnknown {
+		return clUnknown
+	}
+	if a == clInput || b == clInput {
+		return clInput
+	}
+	if a > b {
+		a, b = b, a
+	}
+	// a < b, both in fresh..private
+	switch {
+	case a == clFresh && (b == clOwn || b == clDecoded || b == clPrivate || b == clPrefixDerived):
+		return b
+	case a == clFresh && b == clPrefix:
+		return clPrefixDerived
+	case a == clPrefix && b == clPrefixDerived:
+		return clPrefixDerived
+	}
+	return clUnknown
+}
+
+func joinVal(a, b aval) aval {
+	r := aval{cls: joinClass(a.cls, b.cls), lits: append([]*alit{}, a.lits...)}
+	for _, l := range b.lits {
+		if !r.has(l) {
+			r.lits = append(r.lits, l)
+		}
+	}
+	return r
+}
+
+type adef struct {
+	rhs    ast.Expr // value assigned (nil: zero value `var x T`)
+	idx    int      // result index when rhs is a multi-value call, else -1
+	param  int      // >= 0: parameter number (receiver = 0 for methods), rhs == nil
+	opaque bool     // range variable, type switch binding, closure parameter, …: unknown
+}
+
+type afunc struct {
+	pkg      *apkg
+	decl     *ast.FuncDecl
+	file     string
+	name     string // "recvType.method" or "func"
+	bare     string // method / function name
+	recvType string
+	isMethod bool
+	open     bool // callable from outside the package (exported, or used as a value)
+	params   []string
+	variadic int // index of the variadic parameter or -1
+	defs     map[string][]adef
+	locals   map[string]bool // names declared in the function (parameters, :=, var, range, …)
+	addrOf   map[string]bool // locals whose address is taken
+	unmarsh  map[string]bool // locals passed as first argument to <x>.Unmarshal
+}
+
+type fieldWrite struct {
+	rhs  ast.Expr
+	base ast.Expr // y in `y.F = e` (nil for a composite literal key)
+	fn   *afunc
+	lit  bool // composite literal key (else assignment statement)
+}
+
+type acall struct {
+	call *ast.CallExpr
+	fn   *afunc // caller
+}
+
+type apkg struct {
+	dir         string
+	fset        *token.FileSet
+	files       map[string]*ast.File
+	fileNames   []string
+	imports     map[string]map[string]bool // file -> imported package names
+	funcs       []*afunc
+	plain       map[string]*afunc   // package-level functions by name
+	methods     map[string][]*afunc // methods by method name
+	escaping    map[string]bool     // function / method names used as values
+	pkgVars     map[string]ast.Expr
+	varAssigned map[string]bool
+	fieldWrites map[string][]fieldWrite
+	ownFields   map[string]bool // field names declared in struct types of this package
+	calls       map[string][]acall
+	generated   map[string]int  // skipped generated file -> number of append calls
+	memo        map[string]aval // values of this round
+	assume      map[string]aval // values of the previous round (used on back edges)
+	busy        map[string]bool
+	sites       map[string]*alit
+
+	pkgLevelAppends []pkgAppend
+}
+
+type pkgAppend struct {
+	file string
+	call *ast.CallExpr
+}
+
+// get: one equation of the system; back edges read the previous round's value
+func (p *apkg) get(key string, compute func() aval) aval {
+	if v, ok := p.memo[key]; ok {
+		return v
+	}
+	if p.busy[key] {
+		return p.assume[key]
+	}
+	p.busy[key] = true
+	v := compute()
+	delete(p.busy, key)
+	p.memo[key] = v
+	return v
+}
+
+func (p *apkg) site(id string, lit *ast.CompositeLit, fn *afunc) *alit {
+	if s, ok := p.sites[id]; ok {
+		return s
+	}
+	s := &alit{lit: lit, fn: fn, id: id}
+	p.sites[id] = s
+	return s
+}
+
+func isGenerated(f *ast.File) bool {
+	for _, cg := range f.Comments {
+		if cg.Pos() > f.Package {
+			break
+		}
+		for _, c := range cg.List {
+			if strings.Contains(c.Text, "Code generated") && strings.Contains(c.Text, "DO NOT EDIT") {
+				return true
+			}
+		}
+	}
+	return false
+}
+
+func countAppends(n ast.Node) int {
+	c := 0
+	ast.Inspect(n, func(m ast.Node) bool {
+		if call, ok := m.(*ast.CallExpr); ok {
+			if id, ok := call.Fun.(*ast.Ident); ok && id.Name == "append" {
+				c++
+			}
+		}
+		return true
+	})
+	return c
+}
+
+func typeName(e ast.Expr) string {
+	switch x := e.(type) {
+	case *ast.StarExpr:
+		return typeName(x.X)
+	case *ast.Ident:
+		return x.Name
+	case *ast.IndexExpr:
+		return typeName(x.X)
+	}
+	return "?"
+}
+
+func loadAPkg(repo, rel string) *apkg {
+	pi := loadPkg(filepath.Join(repo, rel))
+	p := &apkg{dir: rel, fset: pi.fset, files: map[string]*ast.File{}, imports: map[string]map[string]bool{},
+		plain: map[string]*afunc{}, methods: map[string][]*afunc{}, escaping: map[string]bool{},
+		pkgVars: map[string]ast.Expr{}, varAssigned: map[string]bool{}, fieldWrites: map[string][]fieldWrite{},
+		ownFields: map[string]bool{}, calls: map[string][]acall{}, generated: map[string]int{},
+		memo: map[string]aval{}, assume: map[string]aval{}, busy: map[string]bool{}, sites: map[string]*alit{}}
+	for name, f := range pi.files {
+		if isGenerated(f) {
+			p.generated[name] = countAppends(f)
+			continue
+		}
+		p.files[name] = f
+		p.fileNames = append(p.fileNames, name)
+	}
+	sort.Strings(p.fileNames)
+	for _, name := range p.fileNames {
+		f := p.files[name]
+		imps := map[string]bool{}
+		for _, im := range f.Imports {
+			path := strings.Trim(im.Path.Value, "\"")
+			n := path[strings.LastIndex(path, "/")+1:]
+			if im.Name != nil {
+				n = im.Name.Name
+			}
+			imps[n] = true
+		}
+		p.imports[name] = imps
+		for _, d := range f.Decls {
+			switch x := d.(type) {
+			case *ast.GenDecl:
+				for _, sp := range x.Specs {
+					switch s := sp.(type) {
+					case *ast.ValueSpec:
+						if x.Tok == token.VAR {
+							for i, nm := range s.Names {
+								if i < len(s.Values) {
+									p.pkgVars[nm.Name] = s.Values[i]
+								} else {
+									p.pkgVars[nm.Name] = nil
+								}
+							}
+						}
+					case *ast.TypeSpec:
+						ast.Inspect(s.Type, func(n ast.Node) bool {
+							if st, ok := n.(*ast.StructType); ok {
+								for _, fl := range st.Fields.List {
+									for _, nm := range fl.Names {
+										p.ownFields[nm.Name] = true
+									}
+								}
+							}
+							return true
+						})
+					}
+				}
+			case *ast.FuncDecl:
+				if x.Body == nil {
+					continue
+				}
+				fn := &afunc{pkg: p, decl: x, file: name, bare: x.Name.Name, name: x.Name.Name, variadic: -1,
+					defs: map[string][]adef{}, locals: map[string]bool{}, addrOf: map[string]bool{}, unmarsh: map[string]bool{}}
+				if x.Recv != nil && len(x.Recv.List) > 0 {
+					fn.isMethod = true
+					fn.recvType = typeName(x.Recv.List[0].Type)
+					fn.name = fn.recvType + "." + x.Name.Name
+					rn := "_"
+					if len(x.Recv.List[0].Names) > 0 {
+						rn = x.Recv.List[0].Names[0].Name
+					}
+					fn.params = append(fn.params, rn)
+					p.methods[fn.bare] = append(p.methods[fn.bare], fn)
+				} else {
+					p.plain[fn.bare] = fn
+				}
+				for _, fl := range x.Type.Params.List {
+					_, isVar := fl.Type.(*ast.Ellipsis)
+					if len(fl.Names) == 0 {
+						fn.params = append(fn.params, "_")
+					}
+					for _, nm := range fl.Names {
+						if isVar {
+							fn.variadic = len(fn.params)
+						}
+						fn.params = append(fn.params, nm.Name)
+					}
+				}
+				for i, nm := range fn.params {
+					if nm != "_" {
+						fn.defs[nm] = append(fn.defs[nm], adef{param: i, idx: -1})
+					}
+				}
+				if x.Type.Results != nil {
+					for _, fl := range x.Type.Results.List {
+						for _, nm := range fl.Names { // named results: start as zero values
+							fn.defs[nm.Name] = append(fn.defs[nm.Name], adef{param: -1, idx: -1})
+						}
+					}
+				}
+				p.funcs = append(p.funcs, fn)
+			}
+		}
+	}
+	for _, fn := range p.funcs {
+		p.scanFunc(fn)
+	}
+	// functions / methods used as values (not in call position) are callable by anybody
+	for _, fn := range p.funcs {
+		callFun := map[ast.Node]bool{}
+		ast.Inspect(fn.decl.Body, func(n ast.Node) bool {
+			if c, ok := n.(*ast.CallExpr); ok {
+				callFun[c.Fun] = true
+			}
+			return true
+		})
+		ast.Inspect(fn.decl.Body, func(n ast.Node) bool {
+			switch x := n.(type) {
+			case *ast.SelectorExpr:
+				if !callFun[x] {
+					if _, ok := p.methods[x.Sel.Name]; ok {
+						p.escaping[x.Sel.Name] = true
+					}
+				}
+			case *ast.Ident:
+				if !callFun[x] {
+					if _, ok := p.plain[x.Name]; ok && !fn.locals[x.Name] {
+						p.escaping["func:"+x.Name] = true
+					}
+				}
+			}
+			return true
+		})
+	}
+	// anything mentioned outside function bodies (package-level initialisers): callable by anybody,
+	// also when it is called there (we do not classify arguments of package-level calls)
+	for _, name := range p.fileNames {
+		for _, d := range p.files[name].Decls {
+			gd, ok := d.(*ast.GenDecl)
+			if !ok {
+				continue
+			}
+			ast.Inspect(gd, func(n ast.Node) bool {
+				switch x := n.(type) {
+				case *ast.SelectorExpr:
+					if _, ok := p.methods[x.Sel.Name]; ok {
+						p.escaping[x.Sel.Name] = true
+					}
+				case *ast.Ident:
+					if _, ok := p.plain[x.Name]; ok {
+						p.escaping["func:"+x.Name] = true
+					}
+				case *ast.CallExpr:
+					if id, ok := x.Fun.(*ast.Ident); ok && id.Name == "append" {
+						p.pkgLevelAppends = append(p.pkgLevelAppends, pkgAppend{file: name, call: x})
+					}
+				}
+				return true
+			})
+		}
+	}
+	// identifiers in selector position were also visited as *ast.Ident above (x.Sel); a field or method
+	// selector named like a package function would make that function "escaping": conservative.
+	for _, fn := range p.funcs {
+		exported := ast.IsExported(fn.bare)
+		if fn.isMethod {
+			fn.open = exported || p.escaping[fn.bare]
+		} else {
+			fn.open = exported || p.escaping["func:"+fn.bare] || fn.bare == "init" || fn.bare == "main"
+		}
+	}
+	return p
+}
+
+// scanFunc records the definitions of every local variable, field writes, call sites, address-of and
+// Unmarshal uses of one function (closures included: their bodies belong to the enclosing function).
+func (p *apkg) scanFunc(fn *afunc) {
+	// names declared inside the function (scopes are ignored: one abstract variable per name)
+	declare := func(e ast.Expr) {
+		if id, ok := e.(*ast.Ident); ok && id.Name != "_" {
+			fn.locals[id.Name] = true
+		}
+	}
+	for _, nm := range fn.params {
+		fn.locals[nm] = true
+	}
+	for nm := range fn.defs { // named results
+		fn.locals[nm] = true
+	}
+	ast.Inspect(fn.decl.Body, func(n ast.Node) bool {
+		switch x := n.(type) {
+		case *ast.AssignStmt:
+			if x.Tok == token.DEFINE {
+				for _, l := range x.Lhs {
+					declare(l)
+				}
+			}
+		case *ast.ValueSpec:
+			for _, nm := range x.Names {
+				declare(nm)
+			}
+		case *ast.RangeStmt:
+			if x.Tok == token.DEFINE {
+				if x.Key != nil {
+					declare(x.Key)
+				}
+				if x.Value != nil {
+					declare(x.Value)
+				}
+			}
+		case *ast.FuncLit:
+			for _, fl := range x.Type.Params.List {
+				for _, nm := range fl.Names {
+					declare(nm)
+				}
+			}
+			if x.Type.Results != nil {
+				for _, fl := range x.Type.Results.List {
+					for _, nm := range fl.Names {
+						declare(nm)
+					}
+				}
+			}
+		case *ast.LabeledStmt:
+		}
+		return true
+	})
+	addDef := func(lhs ast.Expr, d adef) {
+		switch x := lhs.(type) {
+		case *ast.Ident:
+			if x.Name == "_" {
+				return
+			}
+			if !fn.locals[x.Name] {
+				p.varAssigned[x.Name] = true // assignment to a package variable
+				return
+			}
+			fn.defs[x.Name] = append(fn.defs[x.Name], d)
+		case *ast.SelectorExpr:
+			if d.opaque || d.rhs == nil || d.idx >= 0 {
+				p.fieldWrites[x.Sel.Name] = append(p.fieldWrites[x.Sel.Name], fieldWrite{rhs: nil, base: x.X, fn: fn})
+			} else {
+				p.fieldWrites[x.Sel.Name] = append(p.fieldWrites[x.Sel.Name], fieldWrite{rhs: d.rhs, base: x.X, fn: fn})
+			}
+		case *ast.StarExpr:
+			// *p = v: whatever p points to; if p is &local we have marked local as address-taken
+		case *ast.ParenExpr:
+		}
+	}
+	ast.Inspect(fn.decl.Body, func(n ast.Node) bool {
+		switch x := n.(type) {
+		case *ast.AssignStmt:
+			if x.Tok != token.ASSIGN && x.Tok != token.DEFINE {
+				return true // op-assignments do not change provenance
+			}
+			if len(x.Lhs) == len(x.Rhs) {
+				for i := range x.Lhs {
+					addDef(x.Lhs[i], adef{rhs: x.Rhs[i], idx: -1, param: -1})
+				}
+			} else if len(x.Rhs) == 1 {
+				for i := range x.Lhs {
+					switch x.Rhs[0].(type) {
+					case *ast.CallExpr:
+						addDef(x.Lhs[i], adef{rhs: x.Rhs[0], idx: i, param: -1})
+					default: // v, ok := m[k] / x.(T) / <-ch
+						addDef(x.Lhs[i], adef{opaque: true, idx: -1, param: -1})
+					}
+				}
+			}
+		case *ast.ValueSpec: // var x T = e / var x T
+			for i, nm := range x.Names {
+				switch {
+				case len(x.Values) == len(x.Names):
+					addDef(nm, adef{rhs: x.Values[i], idx: -1, param: -1})
+				case len(x.Values) == 0:
+					addDef(nm, adef{rhs: nil, idx: -1, param: -1})
+				case len(x.Values) == 1:
+					addDef(nm, adef{rhs: x.Values[0], idx: i, param: -1})
+				}
+			}
+		case *ast.RangeStmt:
+			if x.Key != nil {
+				addDef(x.Key, adef{opaque: true, idx: -1, param: -1})
+			}
+			if x.Value != nil {
+				addDef(x.Value, adef{opaque: true, idx: -1, param: -1})
+			}
+		case *ast.TypeSwitchStmt:
+			if as, ok := x.Assign.(*ast.AssignStmt); ok {
+				for _, l := range as.Lhs {
+					addDef(l, adef{opaque: true, idx: -1, param: -1})
+				}
+			}
+		case *ast.FuncLit:
+			for _, fl := range x.Type.Params.List {
+				for _, nm := range fl.Names {
+					addDef(nm, adef{opaque: true, idx: -1, param: -1})
+				}
+			}
+		case *ast.UnaryExpr:
+			if x.Op == token.AND {
+				if id, ok := x.X.(*ast.Ident); ok {
+					fn.addrOf[id.Name] = true
+				}
+			}
+		case *ast.CompositeLit:
+			for _, el := range x.Elts {
+				if kv, ok := el.(*ast.KeyValueExpr); ok {
+					if id, ok := kv.Key.(*ast.Ident); ok {
+						p.fieldWrites[id.Name] = append(p.fieldWrites[id.Name], fieldWrite{rhs: kv.Value, fn: fn, lit: true})
+					}
+				}
+			}
+		case *ast.CallExpr:
+			switch f := x.Fun.(type) {
+			case *ast.Ident:
+				p.calls["func:"+f.Name] = append(p.calls["func:"+f.Name], acall{call: x, fn: fn})
+			case *ast.SelectorExpr:
+				p.calls[f.Sel.Name] = append(p.calls[f.Sel.Name], acall{call: x, fn: fn})
+				if f.Sel.Name == "Unmarshal" && len(x.Args) >= 1 {
+					if id, ok := x.Args[0].(*ast.Ident); ok {
+						fn.unmarsh[id.Name] = true
+					}
+				}
+			}
+		}
+		return true
+	})
+	// assignments to / address of package variables (a local of the same name does not excuse: scopes are ignored)
+	ast.Inspect(fn.decl.Body, func(n ast.Node) bool {
+		switch x := n.(type) {
+		case *ast.AssignStmt:
+			if x.Tok != token.DEFINE {
+				for _, l := range x.Lhs {
+					if id, ok := l.(*ast.Ident); ok {
+						if _, isVar := p.pkgVars[id.Name]; isVar {
+							p.varAssigned[id.Name] = true
+						}
+					}
+				}
+			}
+		case *ast.UnaryExpr:
+			if id, ok := x.X.(*ast.Ident); ok && x.Op == token.AND {
+				if _, isVar := p.pkgVars[id.Name]; isVar {
+					p.varAssigned[id.Name] = true
+				}
+			}
+		}
+		return true
+	})
+}
+
+func (p *apkg) pos(n ast.Node) string { return fmt.Sprintf("%d", n.Pos()) }
+
+// isConstBytes: []byte(<constant string expression>)
+func (p *apkg) isConstBytes(e ast.Expr) bool {
+	call, ok := e.(*ast.CallExpr)
+	if !ok || len(call.Args) != 1 {
+		return false
+	}
+	at, ok := call.Fun.(*ast.ArrayType)
+	if !ok || at.Len != nil {
+		return false
+	}
+	if id, ok := at.Elt.(*ast.Ident); !ok || id.Name != "byte" {
+		return false
+	}
+	pi := &pkgInfo{consts: map[string]ast.Expr{}, iota: map[string]int{}}
+	if p.dir == "." {
+		pi = root
+	} else {
+		for k, v := range p.pkgConsts() {
+			pi.consts[k] = v
+		}
+	}
+	v, ok := eval(pi, call.Args[0], 0)
+	return ok && v.kind == "str"
+}
+
+var pkgConstCache = map[*apkg]map[string]ast.Expr{}
+
+func (p *apkg) pkgConsts() map[string]ast.Expr {
+	if m, ok := pkgConstCache[p]; ok {
+		return m
+	}
+	m := map[string]ast.Expr{}
+	for _, name := range p.fileNames {
+		for _, d := range p.files[name].Decls {
+			gd, ok := d.(*ast.GenDecl)
+			if !ok || gd.Tok != token.CONST {
+				continue
+			}
+			for _, sp := range gd.Specs {
+				vs := sp.(*ast.ValueSpec)
+				for i, nm := range vs.Names {
+					if i < len(vs.Values) {
+						m[nm.Name] = vs.Values[i]
+					}
+				}
+			}
+		}
+	}
+	pkgConstCache[p] = m
+	return m
+}
+
+// stringish: an expression that certainly has type string (so that []byte(e) copies)
+func (p *apkg) stringish(fn *afunc, e ast.Expr) bool {
+	switch x := e.(type) {
+	case *ast.BasicLit:
+		return x.Kind == token.STRING
+	case *ast.BinaryExpr:
+		return x.Op == token.ADD && (p.stringish(fn, x.X) || p.stringish(fn, x.Y))
+	case *ast.ParenExpr:
+		return p.stringish(fn, x.X)
+	case *ast.CallExpr:
+		if id, ok := x.Fun.(*ast.Ident); ok && id.Name == "string" && !fn.locals["string"] {
+			return true
+		}
+		if se, ok := x.Fun.(*ast.SelectorExpr); ok {
+			if id, ok := se.X.(*ast.Ident); ok && p.imports[fn.file][id.Name] {
+				q := id.Name + "." + se.Sel.Name
+				return q == "hex.EncodeToString" || q == "fmt.Sprintf" || q == "strings.Join"
+			}
+		}
+	case *ast.Ident:
+		// parameter declared with type string
+		for _, fl := range fn.decl.Type.Params.List {
+			if tid, ok := fl.Type.(*ast.Ident); ok && tid.Name == "string" {
+				for _, nm := range fl.Names {
+					if nm.Name == x.Name && len(fn.defs[x.Name]) == 1 {
+						return true
+					}
+				}
+			}
+		}
+		// local all of whose definitions are stringish
+		ds := fn.defs[x.Name]
+		if len(ds) == 0 {
+			return false
+		}
+		for _, d := range ds {
+			if d.rhs == nil || d.idx >= 0 || d.opaque || d.param >= 0 {
+				return false
+			}
+			if id, ok := d.rhs.(*ast.Ident); ok && id.Name == x.Name {
+				return false
+			}
+			if be, ok := d.rhs.(*ast.BinaryExpr); ok { // s = s + "…"
+				if id, ok := be.X.(*ast.Ident); ok && id.Name == x.Name && be.Op == token.ADD {
+					continue
+				}
+			}
+			if !p.stringish(fn, d.rhs) {
+				return false
+			}
+		}
+		return true
+	}
+	return false
+}
+
+func appendResult(c aclass) aclass {
+	if c == clPrefix {
+		return clPrefixDerived
+	}
+	return c
+}
+
+// classify: provenance of the value of e in function fn
+func (p *apkg) classify(fn *afunc, e ast.Expr) aval {
+	switch x := e.(type) {
+	case *ast.ParenExpr:
+		return p.classify(fn, x.X)
+	case *ast.CompositeLit:
+		return aval{cls: clFresh, lits: []*alit{p.site("lit@"+p.pos(x), x, fn)}}
+	case *ast.UnaryExpr:
+		if x.Op == token.AND {
+			if cl, ok := x.X.(*ast.CompositeLit); ok {
+				return aval{cls: clFresh, lits: []*alit{p.site("lit@"+p.pos(cl), cl, fn)}}
+			}
+		}
+		return aval{cls: clUnknown}
+	case *ast.StarExpr:
+		return p.classify(fn, x.X)
+	case *ast.Ident:
+		return p.classifyIdent(fn, x)
+	case *ast.SelectorExpr:
+		return p.classifySelector(fn, x)
+	case *ast.SliceExpr:
+		b := p.classify(fn, x.X)
+		switch b.cls {
+		case clFresh, clOwn, clDecoded, clPrivate, clInput, clBottom:
+			return aval{cls: b.cls}
+		}
+		return aval{cls: clUnknown} // a sub-slice of a shared prefix has spare capacity: never safe
+	case *ast.IndexExpr:
+		b := p.classify(fn, x.X)
+		if b.cls == clInput || b.cls == clBottom {
+			return aval{cls: b.cls}
+		}
+		return aval{cls: clUnknown} // an element of an own container may still be somebody else's slice
+	case *ast.CallExpr:
+		return p.classifyCall(fn, x, -1)
+	}
+	return aval{cls: clUnknown}
+}
+
+func (p *apkg) classifyCall(fn *afunc, call *ast.CallExpr, idx int) aval {
+	switch f := call.Fun.(type) {
+	case *ast.ArrayType: // conversion []T(x)
+		if len(call.Args) == 1 {
+			if p.isConstBytes(call) || p.stringish(fn, call.Args[0]) {
+				return aval{cls: clFresh}
+			}
+			return aval{cls: p.classify(fn, call.Args[0]).cls}
+		}
+	case *ast.Ident:
+		if !fn.locals[f.Name] {
+			switch f.Name {
+			case "make", "new":
+				if idx <= 0 {
+					return aval{cls: clFresh, lits: []*alit{p.site("new@"+p.pos(call), nil, fn)}}
+				}
+			case "append":
+				if len(call.Args) >= 1 && idx <= 0 {
+					return aval{cls: appendResult(p.classify(fn, call.Args[0]).cls)}
+				}
+			}
+			if callee, ok := p.plain[f.Name]; ok {
+				return p.retClass(callee, idx)
+			}
+		}
+	case *ast.SelectorExpr:
+		// x.m(...): resolvable only for unexported method names (those can only be methods of this package)
+		if id, ok := f.X.(*ast.Ident); ok && p.imports[fn.file][id.Name] && !fn.locals[id.Name] {
+			return aval{cls: clUnknown} // function of another package
+		}
+		if ms, ok := p.methods[f.Sel.Name]; ok && !ast.IsExported(f.Sel.Name) {
+			v := aval{cls: clBottom}
+			for _, m := range ms {
+				v = joinVal(v, p.retClass(m, idx))
+			}
+			return v
+		}
+	}
+	return aval{cls: clUnknown}
+}
+
+// retClass: provenance of result number idx (idx < 0: the single result) of fn
+func (p *apkg) retClass(fn *afunc, idx int) aval {
+	if idx < 0 {
+		idx = 0
+	}
+	return p.get(fmt.Sprintf("ret:%s:%s:%d", fn.file, fn.name, idx), func() aval {
+		v := aval{cls: clBottom}
+		nres := 0
+		if fn.decl.Type.Results != nil {
+			for _, fl := range fn.decl.Type.Results.List {
+				if len(fl.Names) == 0 {
+					nres++
+				} else {
+					nres += len(fl.Names)
+				}
+			}
+		}
+		seen := false
+		ast.Inspect(fn.decl.Body, func(n ast.Node) bool {
+			switch x := n.(type) {
+			case *ast.FuncLit:
+				return false
+			case *ast.ReturnStmt:
+				seen = true
+				switch {
+				case len(x.Results) == nres && idx < nres:
+					v = joinVal(v, p.classify(fn, x.Results[idx]))
+				case len(x.Results) == 1 && nres > 1:
+					if c, ok := x.Results[0].(*ast.CallExpr); ok {
+						v = joinVal(v, p.classifyCall(fn, c, idx))
+					} else {
+						v = joinVal(v, aval{cls: clUnknown})
+					}
+				default: // bare return with named results, or malformed
+					v = joinVal(v, aval{cls: clUnknown})
+				}
+			}
+			return true
+		})
+		if !seen {
+			return aval{cls: clUnknown}
+		}
+		return v
+	})
+}
+
+func (p *apkg) classifyIdent(fn *afunc, id *ast.Ident) aval {
+	if id.Name == "nil" && !fn.locals["nil"] {
+		return aval{cls: clFresh}
+	}
+	defs := fn.defs[id.Name]
+	if !fn.locals[id.Name] {
+		// package variable
+		init, ok := p.pkgVars[id.Name]
+		if ok && !p.varAssigned[id.Name] && init != nil && p.isConstBytes(init) {
+			return aval{cls: clPrefix}
+		}
+		return aval{cls: clUnknown}
+	}
+	if fn.addrOf[id.Name] {
+		return aval{cls: clUnknown}
+	}
+	return p.get(fmt.Sprintf("id:%s:%s:%s", fn.file, fn.name, id.Name), func() aval {
+		v := aval{cls: clBottom}
+		for i, d := range defs {
+			switch {
+			case d.opaque:
+				v = joinVal(v, aval{cls: clUnknown})
+			case d.param >= 0:
+				v = joinVal(v, p.paramClass(fn, d.param))
+			case d.rhs == nil:
+				v = joinVal(v, aval{cls: clFresh, lits: []*alit{p.site(fmt.Sprintf("zero@%s:%s:%s:%d", fn.file, fn.name, id.Name, i), nil, fn)}})
+			case d.idx >= 0:
+				v = joinVal(v, p.classifyCall(fn, d.rhs.(*ast.CallExpr), d.idx))
+			default:
+				v = joinVal(v, p.classify(fn, d.rhs))
+			}
+		}
+		if fn.unmarsh[id.Name] && v.cls == clFresh {
+			v.cls = clDecoded
+		}
+		return v
+	})
+}
+
+// paramClass: provenance of parameter number i of fn (0 = receiver for methods)
+func (p *apkg) paramClass(fn *afunc, i int) aval {
+	if fn.open {
+		return aval{cls: clInput}
+	}
+	if i == fn.variadic {
+		return aval{cls: clUnknown}
+	}
+	return p.get(fmt.Sprintf("param:%s:%s:%d", fn.file, fn.name, i), func() aval {
+		var sites []acall
+		if fn.isMethod {
+			sites = p.calls[fn.bare]
+		} else {
+			for _, c := range p.calls["func:"+fn.bare] {
+				if !c.fn.locals[fn.bare] { // not shadowed by a local of the same name
+					sites = append(sites, c)
+				}
+			}
+		}
+		if len(sites) == 0 {
+			return aval{cls: clUnknown} // no caller seen: nothing can be said
+		}
+		v := aval{cls: clBottom}
+		for _, s := range sites {
+			var arg ast.Expr
+			ai := i
+			if fn.isMethod {
+				if i == 0 {
+					arg = s.call.Fun.(*ast.SelectorExpr).X
+				}
+				ai = i - 1
+			}
+			if arg == nil {
+				if s.call.Ellipsis != token.NoPos || ai >= len(s.call.Args) || (fn.variadic >= 0 && i >= fn.variadic) {
+					v = joinVal(v, aval{cls: clUnknown})
+					continue
+				}
+				np := len(fn.params)
+				if fn.isMethod {
+					np--
+				}
+				if len(s.call.Args) != np && fn.variadic < 0 { // f(g()) with a multi-value g
+					v = joinVal(v, aval{cls: clUnknown})
+					continue
+				}
+				arg = s.call.Args[ai]
+			}
+			v = joinVal(v, p.classify(s.fn, arg))
+		}
+		return v
+	})
+}
+
+// privateField: the two rules that depend only on the field's name (unexported field of a struct of this
+// package, so that every write to it is in this package and has been recorded)
+func (p *apkg) privateField(f string) aval {
+	writes := p.fieldWrites[f]
+	if !(p.ownFields[f] && !ast.IsExported(f) && len(writes) > 0) {
+		return aval{cls: clUnknown}
+	}
+	// prefix rule: every write is []byte(<const string>)
+	all := true
+	for _, w := range writes {
+		if w.rhs == nil || !p.isConstBytes(w.rhs) {
+			all = false
+			break
+		}
+	}
+	if all {
+		return aval{cls: clPrefix}
+	}
+	// private-state rule: every write stores a fresh value or something derived from the field itself
+	return p.get("private:"+f, func() aval {
+		v := aval{cls: clBottom}
+		for _, w := range writes {
+			if w.rhs == nil {
+				return aval{cls: clUnknown}
+			}
+			c := p.classify(w.fn, w.rhs).cls
+			switch c {
+			case clBottom:
+			case clFresh, clPrivate:
+				v.cls = clPrivate
+			default:
+				return aval{cls: clUnknown}
+			}
+		}
+		return v
+	})
+}
+
+// loc: abstract content of field f of the objects allocated at site s
+func (p *apkg) loc(s *alit, f string) aval {
+	return p.get("loc:"+s.id+"."+f, func() aval {
+		v := aval{cls: clBottom}
+		found := false
+		if s.lit != nil {
+			for _, el := range s.lit.Elts {
+				kv, ok := el.(*ast.KeyValueExpr)
+				if !ok {
+					return aval{cls: clUnknown} // positional literal
+				}
+				if id, ok := kv.Key.(*ast.Ident); ok && id.Name == f {
+					found = true
+					v = joinVal(v, p.classify(s.fn, kv.Value))
+				}
+			}
+		}
+		if !found { // zero value; as an object it is the implicit sub-object of s
+			v = joinVal(v, aval{cls: clFresh, lits: []*alit{p.site("sub("+s.id+")."+f, nil, s.fn)}})
+		}
+		// assignments `y.F = e` anywhere in the package whose y may denote this site (or is not understood)
+		for _, w := range p.fieldWrites[f] {
+			if w.lit {
+				continue
+			}
+			b := p.classify(w.fn, w.base)
+			switch {
+			case b.has(s), b.cls == clUnknown, b.cls == clPrivate, b.cls == clPrefix, b.cls == clPrefixDerived:
+				if w.rhs == nil {
+					return aval{cls: clUnknown}
+				}
+				v = joinVal(v, p.classify(w.fn, w.rhs))
+			}
+		}
+		return v
+	})
+}
+
+func (p *apkg) classifySelector(fn *afunc, se *ast.SelectorExpr) aval {
+	if id, ok := se.X.(*ast.Ident); ok && p.imports[fn.file][id.Name] && !fn.locals[id.Name] {
+		return aval{cls: clUnknown} // pkg.Var of another package
+	}
+	f := se.Sel.Name
+	if pv := p.privateField(f); pv.cls != clUnknown {
+		return pv
+	}
+	base := p.classify(fn, se.X)
+	switch base.cls {
+	case clInput, clBottom:
+		return aval{cls: base.cls}
+	case clFresh, clOwn, clDecoded:
+	default:
+		return aval{cls: clUnknown}
+	}
+	if len(base.lits) == 0 {
+		return aval{cls: clUnknown} // an object of this call whose allocation we do not see
+	}
+	v := aval{cls: clBottom}
+	for _, l := range base.lits {
+		v = joinVal(v, p.loc(l, f))
+	}
+	switch {
+	case base.cls == clDecoded && (v.cls == clFresh || v.cls == clDecoded):
+		v.cls = clDecoded
+	case v.cls == clFresh:
+		v.cls = clOwn
+	}
+	return v
+}
+
+func nodeText(fset *token.FileSet, n ast.Node) string {
+	var b bytes.Buffer
+	_ = printer.Fprint(&b, fset, n)
+	s := strings.Join(strings.Fields(b.String()), " ")
+	s = strings.ReplaceAll(s, "\"", "'")
+	return s
+}
+
+type asite struct {
+	file, fn, kind, text string
+	ord                  int
+	back                 bool // the result is assigned back to x itself: x = append(x, …)
+	cls                  aclass
+}
+
+// collectSites walks every function in source order; the classification equations are solved by
+// iterating whole rounds until the values read on back edges no longer change
+func (p *apkg) collectSites() (appends []asite, writes []asite) {
+	for round := 0; ; round++ {
+		p.memo = map[string]aval{}
+		p.busy = map[string]bool{}
+		appends, writes = p.collectOnce()
+		changed := false
+		for k, v := range p.memo {
+			nv := joinVal(p.assume[k], v)
+			if !sameVal(nv, p.assume[k]) {
+				p.assume[k] = nv
+				changed = true
+			}
+		}
+		if !changed {
+			break
+		}
+		if round > 100 { // cannot happen (finite lattice); refuse rather than report something unsolved
+			for i := range appends {
+				appends[i].cls = clUnknown
+			}
+			for i := range writes {
+				writes[i].cls = clUnknown
+			}
+			break
+		}
+	}
+	return
+}
+
+func (p *apkg) collectOnce() (appends []asite, writes []asite) {
+	for i, a := range p.pkgLevelAppends { // not analysed: never safe
+		rel := a.file
+		if p.dir != "." {
+			rel = p.dir + "/" + a.file
+		}
+		txt := "?"
+		if len(a.call.Args) > 0 {
+			txt = nodeText(p.fset, a.call.Args[0])
+		}
+		appends = append(appends, asite{file: rel, fn: "<package level>", kind: "append", text: txt, ord: i, cls: clUnknown})
+	}
+	for _, fn := range p.funcs {
+		ordA, ordW := 0, 0
+		rel := fn.file
+		if p.dir != "." {
+			rel = p.dir + "/" + fn.file
+		}
+		shadow := func(name string) bool { return fn.locals[name] }
+		back := map[*ast.CallExpr]bool{}
+		ast.Inspect(fn.decl.Body, func(n ast.Node) bool {
+			if as, ok := n.(*ast.AssignStmt); ok && len(as.Lhs) == 1 && len(as.Rhs) == 1 {
+				if c, ok := as.Rhs[0].(*ast.CallExpr); ok && len(c.Args) > 0 {
+					if id, ok := c.Fun.(*ast.Ident); ok && id.Name == "append" &&
+						nodeText(p.fset, as.Lhs[0]) == nodeText(p.fset, c.Args[0]) {
+						back[c] = true
+					}
+				}
+			}
+			return true
+		})
+		cls := func(e ast.Expr) aclass {
+			c := p.classify(fn, e).cls
+			if c == clBottom {
+				c = clUnknown
+			}
+			return c
+		}
+		ast.Inspect(fn.decl.Body, func(n ast.Node) bool {
+			switch x := n.(type) {
+			case *ast.CallExpr:
+				id, ok := x.Fun.(*ast.Ident)
+				if !ok || shadow(id.Name) || len(x.Args) == 0 {
+					return true
+				}
+				switch id.Name {
+				case "append":
+					appends = append(appends, asite{file: rel, fn: fn.name, kind: "append", text: nodeText(p.fset, x.Args[0]), ord: ordA, back: back[x], cls: cls(x.Args[0])})
+					ordA++
+				case "copy", "delete":
+					writes = append(writes, asite{file: rel, fn: fn.name, kind: id.Name, text: nodeText(p.fset, x.Args[0]), ord: ordW, cls: cls(x.Args[0])})
+					ordW++
+				}
+			case *ast.AssignStmt:
+				for _, l := range x.Lhs {
+					if ie, ok := l.(*ast.IndexExpr); ok {
+						writes = append(writes, asite{file: rel, fn: fn.name, kind: "index", text: nodeText(p.fset, ie.X), ord: ordW, cls: cls(ie.X)})
+						ordW++
+					}
+				}
+			case *ast.IncDecStmt:
+				if ie, ok := x.X.(*ast.IndexExpr); ok {
+					writes = append(writes, asite{file: rel, fn: fn.name, kind: "index", text: nodeText(p.fset, ie.X), ord: ordW, cls: cls(ie.X)})
+					ordW++
+				}
+			}
+			return true
+		})
+	}
+	return
+}
+
+func genAppends(repo, outDir string) {
+	// every directory with non-test Go files, except test doubles (mock/) and the repo's own check dir
+	var dirs []string
+	_ = filepath.Walk(repo, func(path string, info os.FileInfo, err error) error {
+		if err != nil || !info.IsDir() {
+			return nil
+		}
+		base := filepath.Base(path)
+		if path != repo && (strings.HasPrefix(base, ".") || base == "mock" || base == "testdata" || base == "vendor") {
+			return filepath.SkipDir
+		}
+		ms, _ := filepath.Glob(filepath.Join(path, "*.go"))
+		for _, m := range ms {
+			if !strings.HasSuffix(m, "_test.go") {
+				rel, _ := filepath.Rel(repo, path)
+				dirs = append(dirs, rel)
+				break
+			}
+		}
+		return nil
+	})
+	sort.Strings(dirs)
+	var appends, writes []asite
+	var skipped []string
+	for _, d := range dirs {
+		p := loadAPkg(repo, d)
+		a, w := p.collectSites()
+		appends = append(appends, a...)
+		writes = append(writes, w...)
+		var gens []string
+		for g := range p.generated {
+			gens = append(gens, g)
+		}
+		sort.Strings(gens)
+		for _, g := range gens {
+			rel := g
+			if d != "." {
+				rel = d + "/" + g
+			}
+			skipped = append(skipped, fmt.Sprintf("  (\"%s\", %d)", rel, p.generated[g]))
+		}
+	}
+	o := &outFile{}
+	o.p("%s", header)
+	o.p("(* Whose backing array can an `append(x, …)` write?  One entry per call, in the non-test,")
+	o.p("   non-generated Go files of the repository (test doubles in mock/ excluded):")
+	o.p("   file, enclosing function, ordinal of the call within that function (source order, 0-based),")
+	o.p("   source text of x, provenance class of x computed by tools/srcgen/appends.go. *)")
+	o.p("Inductive provenance := Fresh | PrefixField | PrefixDerived | Decoded | OwnOutput | PrivateState | Input | Unknown.")
+	o.p("(* as_back: the call has the form `x = append(x, …)` (the result replaces x itself) *)")
+	o.p("Record append_site := { as_file : string; as_func : string; as_ord : nat; as_arg : string; as_back : bool; as_class : provenance }.")
+	emit := func(name string, l []asite, withKind bool) {
+		if withKind {
+			o.p("Definition %s : list (string * append_site) := [", name)
+		} else {
+			o.p("Definition %s : list append_site := [", name)
+		}
+		for i, s := range l {
+			sep := ";"
+			if i == len(l)-1 {
+				sep = ""
+			}
+			rec := fmt.Sprintf("{| as_file := \"%s\"; as_func := \"%s\"; as_ord := %d; as_arg := \"%s\"; as_back := %v; as_class := %s |}",
+				s.file, s.fn, s.ord, s.text, s.back, aclassCoq[s.cls])
+			if withKind {
+				o.p("  (\"%s\", %s)%s", s.kind, rec, sep)
+			} else {
+				o.p("  %s%s", rec, sep)
+			}
+		}
+		o.p("].")
+	}
+	emit("append_sites", appends, false)
+	o.p("")
+	o.p("(* The other statements that write through a slice or a map: x[i] = v, x[i] op= v, x[i]++ (\"index\"),")
+	o.p("   copy(x, …), delete(x, …); same classification of x; ordinals count these statements per function. *)")
+	emit("write_sites", writes, true)
+	o.p("")
+	o.p("(* generated Go files (\"Code generated … DO NOT EDIT\") are not analysed: (file, number of append calls) *)")
+	o.p("Definition skipped_generated_files : list (string * nat) := [")
+	o.p("%s", strings.Join(skipped, ";\n"))
+	o.p("].")
+	writeIfChanged(filepath.Join(outDir, "AppendSites.v"), o.buf.Bytes())
+}
